@@ -67,6 +67,102 @@ def perp_d2(fn, r):
     return sum((t * y - x) ** 2 for x, y in zip(fn, r))
 
 
+# ----------------------------------------------------------------------------
+# find_intercepts recomputed exactly (independent of the Coq model; used for the oracle and to
+# decide, from exact quantities only, whether rounding can change a decision of the float code)
+# ----------------------------------------------------------------------------
+TOL6 = Fraction(1e-6)
+
+
+def solve_frac(A, b):
+    """the unique solution of A x = b over the rationals (Gauss-Jordan), None when A is singular"""
+    n = len(A)
+    m = [list(r) + [Fraction(v)] for r, v in zip(A, b)]
+    for c in range(n):
+        piv = next((r for r in range(c, n) if m[r][c] != 0), None)
+        if piv is None:
+            return None
+        m[c], m[piv] = m[piv], m[c]
+        m[c] = [v / m[c][c] for v in m[c]]
+        for r in range(n):
+            if r != c and m[r][c] != 0:
+                f = m[r][c]
+                m[r] = [v - f * u for v, u in zip(m[r], m[c])]
+    return [m[r][n] for r in range(n)]
+
+
+def _dyadic_small(v):
+    v = Fraction(v)
+    d = v.denominator
+    return d & (d - 1) == 0 and d <= 2 ** 24 and abs(v.numerator) < 2 ** 34
+
+
+def _pow2(v):
+    v = abs(Fraction(v))
+    return v != 0 and v.numerator & (v.numerator - 1) == 0 and v.denominator & (v.denominator - 1) == 0
+
+
+def lu_is_exact(A):
+    """Is the singularity of A met EXACTLY by the binary64 LU with partial pivoting, so that numpy.linalg.solve
+    certainly raises LinAlgError?  True for a zero row or a zero column (they stay exactly zero whatever the rounding
+    of the other entries, so some pivot is exactly zero).  Otherwise the elimination is simulated exactly and must only
+    use pivots that are powers of two - OpenBLAS multiplies by the rounded reciprocal of the pivot, so even two identical
+    rows need not cancel exactly (observed: [[999999,4,0],[999999,4,0],[0,1,3999999]] is NOT reported singular) - and
+    short dyadic multipliers / entries."""
+    n = len(A)
+    m = [list(r) for r in A]
+    if any(all(v == 0 for v in r) for r in m) or any(all(m[r][c] == 0 for r in range(n)) for c in range(n)):
+        return True
+    if not all(_dyadic_small(v) for r in m for v in r):
+        return False
+    for c in range(n):
+        piv = max(range(c, n), key=lambda r: (abs(m[r][c]), -r))
+        if m[piv][c] == 0:
+            return True
+        if not _pow2(m[piv][c]):
+            return False
+        m[c], m[piv] = m[piv], m[c]
+        for r in range(c + 1, n):
+            f = m[r][c] / m[c][c]
+            if not _dyadic_small(f):
+                return False
+            m[r] = [v - f * u for v, u in zip(m[r], m[c])]
+            if not all(_dyadic_small(v) for v in m[r]):
+                return False
+    return True
+
+
+def icpt_exact(ext, best, worst, fw):
+    """find_intercepts over the rationals: branch, result, and whether the branch is stable under rounding"""
+    M = len(best)
+    ext = [[Fraction(v) for v in r] for r in ext]
+    best, worst, fw = [Fraction(v) for v in best], [Fraction(v) for v in worst], [Fraction(v) for v in fw]
+    A = [[z - b for z, b in zip(row, best)] for row in ext]
+    x = solve_frac(A, [1] * M)
+    if x is None:
+        return {"branch": "singular", "result": worst, "robust": lu_is_exact(A), "tol": Fraction(1, 10 ** 9)}
+    inv_cols = [solve_frac(A, [1 if i == j else 0 for i in range(M)]) for j in range(M)]
+    norm_a = max(sum(abs(v) for v in r) for r in A)
+    norm_inv = max(sum(abs(inv_cols[j][i]) for j in range(M)) for i in range(M))
+    cond = norm_a * norm_inv
+    tol = max(Fraction(1, 10 ** 9), cond * Fraction(1, 10 ** 14))
+    well = cond <= 10 ** 6
+    if any(v == 0 for v in x):
+        return {"branch": "zero", "result": fw, "robust": well, "tol": tol, "cond": cond}
+    a = [1 / v for v in x]
+    viol, clear_viol, all_clear = False, False, True
+    for aj, bj, wj in zip(a, best, worst):
+        m1 = abs(aj - TOL6) > 10 * tol * (abs(aj) + TOL6)
+        m2 = abs(aj + bj - wj) > 10 * tol * abs(aj) + Fraction(1, 10 ** 14) * (abs(aj + bj) + abs(wj))
+        v1, v2 = aj <= TOL6, aj + bj > wj
+        viol = viol or v1 or v2
+        clear_viol = clear_viol or (v1 and m1) or (v2 and m2)
+        all_clear = all_clear and m1 and m2
+    if viol:
+        return {"branch": "guard", "result": fw, "robust": well and clear_viol, "tol": tol, "cond": cond, "a": a}
+    return {"branch": "main", "result": a, "robust": well and all_clear, "tol": tol, "cond": cond, "a": a}
+
+
 def shuffle_code(before, after):
     """code c with: element before[i] is inserted at position c[i] among before[0..i-1] as ordered in `after`."""
     pos = {x: i for i, x in enumerate(after)}
@@ -187,8 +283,11 @@ class Recorder(object):
             return r
 
         def ficpt(extreme_points, best_point, current_worst, front_worst):
+            before = [numpy.array(v, dtype=float) for v in (extreme_points, best_point, current_worst, front_worst)]
             r = saved["find_intercepts"](extreme_points, best_point, current_worst, front_worst)
-            self.icpt.append({"best": numpy.array(best_point, dtype=float).reshape(-1),
+            extreme_points, best_point, current_worst, front_worst = before      # the inputs as they were given
+            self.icpt.append({"ext": numpy.array(extreme_points, dtype=float),
+                              "best": numpy.array(best_point, dtype=float).reshape(-1),
                               "worst": numpy.array(current_worst, dtype=float).reshape(-1),
                               "front_worst": numpy.array(front_worst, dtype=float).reshape(-1),
                               "result": numpy.array(r, dtype=float).reshape(-1)})
@@ -316,6 +415,11 @@ def main(run):
                 "plus float-valued populations (discrete part, association and oracle only); "
                 "niching replayed with the recorded shuffles; association checked in binary64 "
                 "within tolerance and exactly over Q on a robust subset. Reference points: every (M,p) in 2..6 x 1..8, scalings. "
+                "Deepening: find_intercepts on every integer-valued call inside selNSGA3 and on crafted direct calls (M 1..5; random / dense / diagonal matrices, "
+                "guards holding with equality, duplicate extreme points, extreme point = best point, objective constant over the extreme points, 2x / 3x / summed rows, "
+                "zero component of the solution, negative / dyadic tiny / too large intercepts, offsets up to 1e6) against the exact model of every branch; "
+                "the whole selNSGA3 pipeline recomputed from weighted values, k, nd, reference points, memory and shuffles (CFull), 30% of the integer populations "
+                "with one individual far out on every axis so that the main branch of find_intercepts is reached. "
                 "Hardening: sequences on the same objects (same population selected from repeatedly / reordered; selNSGA3WithMemory and the "
                 "hand-threaded best_point/worst_point/extreme_points/return_memory route; two interleaved clients sharing one reference array; "
                 "overwritten reference-point results), inputs snapshotted and compared after every call, value domains (int / numpy scalar "
@@ -326,14 +430,21 @@ def main(run):
     run.trusted += ["Coq 8.16.1 kernel and vm_compute",
                     "hand-written models coq/Model/C07_{Spea2,Nsga3,RefPoints}.v tied by correspondence (harness/c07.py)",
                     "recording proxies for random / numpy.random / helper functions placed in the namespace of deap.tools.emo",
-                    "find_extreme_points / find_intercepts (ASF, numpy.linalg.solve) are inputs recorded from the implementation, not modelled",
-                    "sortNondominated / sortLogNondominated are inputs (property C04); the fronts they return are checked by an independent peeling oracle",
+                    "integer-valued NSGA-III populations (CFull): the whole of selNSGA3 runs inside the model nsga3_full (C04's models of the two sorters, "
+                    "best/worst/extreme points, find_intercepts, association, niching); only the shuffles are recorded. LAPACK's rounding in numpy.linalg.solve is "
+                    "not modelled: where the exact branch decision of find_intercepts has no margin (a guard holding with equality, an inexact elimination of a "
+                    "singular matrix - decided by the harness from exact quantities) the observed intercepts only have to be one of the values a branch can return",
+                    "float-valued NSGA-III populations, and integer ones failing the robustness conditions of CFull, still use the first-round route: fronts and "
+                    "intercepts recorded from the implementation (fronts checked by an independent peeling oracle, intercepts by the guard oracle); "
+                    "find_extreme_points is modelled for integer-valued fitnesses only",
+                    "hand-written models coq/Model/C07_{Intercepts,Full}.v and C04's coq/Model/C04_{NDSort,LogSort}.v (inside nsga3_full) tied by correspondence",
                     "exact replay of selSPEA2 uses integer grids (|coordinate| <= 64, n <= 64): float keys raw + 1/(d+2) then order exactly like the rationals; "
                     "the binary64 replay (Coq primitive floats) has no such restriction",
                     "K = math.sqrt(N) is modelled by isqrt(N) (valid for N < 2^50)"]
     run.assumptions += ["fitness values are finite (no NaN/inf)", "1 <= k <= n", "individuals are distinct objects",
                         "reference points non-zero, scaling in (0, 1]"]
-    run.build_props()
+    run.build_props(extra=["Props/C07_full.v"])
+    run.build_props(props="Props/C07_full.v")       # selNSGA3 composed with C04's sorters, find_intercepts (obligations + Print Assumptions)
     rng = run.rng
     pf = PopFactory(base)
     groups = {}
@@ -547,7 +658,8 @@ def main(run):
     # ------------------------------------------------------------------
     # NSGA-III
     # ------------------------------------------------------------------
-    budget = {"exact": run.scale(40, 400)}
+    budget = {"exact": run.scale(40, 400), "full_singular": run.scale(10, 100), "nsga3q": run.scale(10, 100)}
+    coverage = {"full": {}, "icpt": {}}
 
     def make_refs(M):
         while True:
@@ -564,7 +676,7 @@ def main(run):
         return numpy.concatenate((tools.uniform_reference_points(M, p, 1.0),
                                   tools.uniform_reference_points(M, p2, 0.5)), axis=0), {"p": p, "inner_p": p2}
 
-    def check_nsga3_call(pop, k, out, rec_fronts, rec_assoc, rec_nich, case, R, single=False):
+    def check_nsga3_call(pop, k, out, rec_fronts, rec_assoc, rec_nich, case, R, single=False, fullctx=None):
         # single=True: float32 reference points (the implementation then computes their norms in single precision)
         """Oracle for one selNSGA3 call + correspondence terms."""
         n = len(pop)
@@ -608,11 +720,14 @@ def main(run):
             den = [c - b + EPS for c, b in zip(icptF, bestF)]
             if any(d == 0 for d in den):
                 finite = robust = False
+        rowinfo = []
         if finite:
             for row, niche in zip(a["fits"], a["niches"]):
                 fn = [(Fraction(x) - b) / d for x, b, d in zip(row, bestF, den)]
                 d2 = [perp_d2(fn, r) for r in refsF]
                 m = min(d2)
+                if 0 <= niche < len(refsF):
+                    rowinfo.append((tuple(float(x) for x in row), niche, d2[niche], sum(x * x for x in fn)))
                 # rounding errors of the distance computation are relative to |fn|^2 (it is homogeneous in fn)
                 tol = Fraction(1, 10 ** 5 if single else 10 ** 9) * sum(x * x for x in fn) + Fraction(1, 10 ** 290)
                 if not (0 <= niche < len(refsF)) or d2[niche] > m + tol:
@@ -656,11 +771,175 @@ def main(run):
                 add("assocf", "CAssocF %s %s %s %s %s %s" % (cfll(a["fits"]), cfll(a["refs"]), cfl(a["best"]), cfl(a["icpt"]),
                                                              cnatl(a["niches"]), cfl(a["dist"])), case)
             size = len(a["fits"]) * len(a["refs"]) * len(a["best"])
-            if robust and not single and size <= 400 and budget["exact"] > 0:
+            # closest-if-empty rule: the model orders the squared exact distances, the code the rounded
+            # distances; two last-front candidates of one niche must be the same point or clearly apart
+            dist_robust = robust and len(rowinfo) == len(flat)
+            if dist_robust and nlast:
+                lastinfo = rowinfo[len(rowinfo) - nlast:]
+                for i1 in range(len(lastinfo)):
+                    for i2 in range(i1 + 1, len(lastinfo)):
+                        r1, r2 = lastinfo[i1], lastinfo[i2]
+                        if r1[1] == r2[1] and r1[0] != r2[0] and \
+                                abs(r1[2] - r2[2]) <= Fraction(1, 10 ** 6) * max(r1[3], r2[3]) + Fraction(1, 10 ** 290):
+                            dist_robust = False
+            if fullctx is not None and fullctx["icpt_info"]["branch"] == "singular" and budget["full_singular"] <= 0:
+                dist_robust = False         # enough full-pipeline cases of the LinAlgError branch: keep the budget for the others
+            if robust and not single and size <= 400 and budget["exact"] > 0 and fullctx is not None and dist_robust:
+                if fullctx["icpt_info"]["branch"] == "singular":
+                    budget["full_singular"] -= 1
+                # the whole of selNSGA3 inside the model: only the weighted values, k, nd, the reference points,
+                # the memory and the shuffles are given; everything else is recomputed and compared
                 budget["exact"] -= 1
+                fc = fullctx
+                info = fc["icpt_info"]
+                coverage["full"][info["branch"] + ("" if info["robust"] else "/boundary")] = \
+                    coverage["full"].get(info["branch"] + ("" if info["robust"] else "/boundary"), 0) + 1
+                add("exact", "CFull %s %s %s %s %s %s %s %s %s %s %s %s %s %s %s %s %s" % (
+                    cbool(fc["nd"] == "log"), czll(fc["wv"]), cnat(k), cqll(a["refs"]),
+                    copt(fc["mem"], lambda t: "(%s, %s)" % (czl(t[0]), czl(t[1]))), copt(fc["pext"], czll),
+                    cnatll(nr["codes"]), cbool(info["robust"]), cq(info["tol"]),
+                    cnatll(fronts), czl(fc["best"]), czl(fc["worst"]), czll(fc["ext"]), cql(fc["icpt"]),
+                    cnatl(a["niches"]), cnatl(sel), cnatl(nr["counts1"])), dict(case, full=True))
+            elif robust and not single and size <= 400 and budget["exact"] > 0 and budget["nsga3q"] > 0:
+                budget["exact"] -= 1
+                budget["nsga3q"] -= 1
                 add("exact", "CNsga3Q %s %s %s %s %s %s %s %s %s %s" % (
                     cqll(a["fits"]), cnatll(fronts), cnat(k), cqll(a["refs"]), cql(a["best"]), cql(a["icpt"]), cql(a["dist"]),
                     cnatll(nr["codes"]), cnatl(a["niches"]), cnatl(sel)), case)
+
+    def intercept_oracle(ic, case):
+        """what find_intercepts may return, stated on the implementation's own output with the float comparisons of
+        the statement: the remembered worst point, the worst point of the sorted fronts, or intercepts each above
+        1e-6 and none beyond the worst point once translated back by the best point"""
+        r, best, worst, fw = ic["result"], ic["best"], ic["worst"], ic["front_worst"]
+        if r.shape != best.shape:
+            run.oracle_violation("find_intercepts returned %d intercepts for %d objectives" % (r.size, best.size), case,
+                                 observed={"intercepts": [float(x) for x in r]})
+            return
+        if numpy.array_equal(r, worst) or numpy.array_equal(r, fw):
+            return
+        if not numpy.all(numpy.isfinite(r)) or numpy.any(r <= 1e-6) or numpy.any(r + best > worst):
+            run.oracle_violation("find_intercepts returned intercepts that are neither a fall-back (worst point / worst of the "
+                                 "sorted fronts) nor all above 1e-6 and within the worst point", case,
+                                 observed={"intercepts": [float(x) for x in r], "best": [float(x) for x in best],
+                                           "worst": [float(x) for x in worst], "front_worst": [float(x) for x in fw]})
+            return
+        # the hyperplane through the extreme points: sum_j (z_j - best_j) / a_j = 1 (only on well-conditioned exact inputs)
+        try:
+            A = [[Fraction(float(z)) - Fraction(float(b)) for z, b in zip(row, best)] for row in ic["ext"]]
+            inv = [1 / Fraction(float(v)) for v in r]
+            scale = max([abs(v) for row in A for v in row] + [1]) * max(abs(v) for v in inv)
+            for row in A:
+                if abs(sum(u * v for u, v in zip(row, inv)) - 1) > Fraction(1, 10 ** 6) * max(1, scale):
+                    run.oracle_violation("find_intercepts: the returned intercepts are not those of the hyperplane through "
+                                         "the extreme points", case, observed={"intercepts": [float(x) for x in r]})
+                    return
+        except (ZeroDivisionError, ValueError, OverflowError):
+            pass
+
+    def icpt_term(ext, best, worst, fw, obs, case, where):
+        """correspondence term for one find_intercepts call on exact (integer / dyadic) inputs"""
+        info = icpt_exact(ext, best, worst, fw)
+        key = where + ":" + info["branch"] + ("" if info["robust"] else "/boundary")
+        coverage["icpt"][key] = coverage["icpt"].get(key, 0) + 1
+        add("icpt", "CIcpt %s %s %s %s %s %s %s" % (cqll(ext), cql(best), cql(worst), cql(fw), cbool(info["robust"]),
+                                                    cq(info["tol"]), cql(obs)),
+            dict(case, intercepts={"where": where, "ext": [[float(x) for x in r] for r in ext], "best": [float(x) for x in best],
+                                   "worst": [float(x) for x in worst], "front_worst": [float(x) for x in fw],
+                                   "observed": obs, "exact_branch": info["branch"], "robust": info["robust"]}))
+        return info
+
+    def icpt_case():
+        """find_intercepts called directly on crafted exact inputs: every branch, incl. singular (duplicate extreme
+        points, an extreme point equal to the best point, proportional / dependent rows), a zero component of the
+        solution, negative / tiny / too large intercepts, and guards that hold with equality"""
+        M = rng.choice([1, 2, 2, 3, 3, 4, 5])
+        off = rng.choice([0, 0, 0, 10, -7, 1000, 10 ** 6])
+        best = [rng.randint(-3, 3) + off for _ in range(M)]
+        kind = rng.choice(["random", "random", "diag", "diag-eq", "dup", "bestrow", "bestcol", "pow2dup", "prop2", "prop3", "sumrows",
+                           "zerox", "negative", "tiny", "tiny", "beyond", "dense"])
+        rel = None
+        if kind in ("diag", "diag-eq", "tiny", "beyond"):
+            d = [rng.randint(1, 9) for _ in range(M)]
+            if kind == "tiny":
+                # 2^-10 .. 2^-19 are above the 1e-6 threshold (main branch if within the worst point), 2^-20 .. below it
+                d[rng.randrange(M)] = Fraction(1, 2 ** rng.choice([10, 14, 17, 19, 20, 21, 24]))
+            rel = [[d[i] if i == j else 0 for j in range(M)] for i in range(M)]
+        elif kind in ("random", "negative", "dense"):
+            hi = 6 if kind != "dense" else 40
+            rel = [[rng.randint(0, hi) for _ in range(M)] for _ in range(M)]
+            if kind == "negative" and M >= 2:
+                rel = [[(i + j + 1) for j in range(M)] for i in range(M)]
+                rel[rng.randrange(M)][rng.randrange(M)] += rng.randint(1, 3)
+        elif kind in ("dup", "bestrow", "bestcol", "pow2dup", "prop2", "prop3", "sumrows"):
+            rel = [[rng.randint(0, 6) for _ in range(M)] for _ in range(M)]
+            if kind == "pow2dup":
+                rel = [[rng.choice([0, 1, 2, 4, 8]) for _ in range(M)] for _ in range(M)]     # power-of-two pivots: exact LU
+            if M >= 2:
+                i, j = rng.sample(range(M), 2)
+                if kind in ("dup", "pow2dup"):
+                    rel[j] = list(rel[i])
+                elif kind == "bestrow":
+                    rel[j] = [0] * M
+                elif kind == "bestcol":
+                    for row in rel:
+                        row[j] = 0              # every extreme point has the best value in objective j
+                elif kind == "prop2":
+                    rel[j] = [2 * v for v in rel[i]]
+                elif kind == "prop3":
+                    rel[j] = [3 * v for v in rel[i]]
+                elif M >= 3:
+                    l = next(t for t in range(M) if t not in (i, j))
+                    rel[l] = [u + v for u, v in zip(rel[i], rel[j])]
+            else:
+                rel = [[0]]
+        else:   # zerox: the solution has an exactly zero component j
+            if M >= 3:
+                j = rng.randrange(M)
+                others = [i for i in range(M) if i != j]
+                d = {i: rng.randint(1, 6) for i in others}
+                rel = [[0] * M for _ in range(M)]
+                for i in others:
+                    rel[i][i] = d[i]
+                    rel[i][j] = rng.randint(0, 5)
+                m_ = rng.choice(others)
+                rel[j][m_] = d[m_]
+                rel[j][j] = rel[m_][j] + rng.randint(1, 4)
+            elif M == 2:
+                j = rng.randrange(2)
+                o = 1 - j
+                dd = rng.randint(1, 6)
+                rel = [[0, 0], [0, 0]]
+                rel[o][o], rel[o][j] = dd, rng.randint(0, 4)
+                rel[j][o], rel[j][j] = dd, rel[o][j] + rng.randint(1, 4)
+            else:
+                rel = [[rng.randint(1, 5)]]
+        ext = [[b + v for b, v in zip(best, row)] for row in rel]
+        spread = max([abs(v) for row in rel for v in row] + [1])
+        if kind == "diag-eq":
+            worst = [b + rel[i][i] for i, b in enumerate(best)]          # the worst-point guard holds with equality
+        elif kind == "beyond":
+            worst = [b + max(0, rel[i][i] - rng.randint(0, 2)) for i, b in enumerate(best)]
+        else:
+            worst = [b + rng.choice([spread, 2 * spread, 10 * spread, rng.randint(0, int(spread) + 1)]) for b in best]
+        fw = [b + rng.randint(0, int(spread) + 2) for b in best]
+        case = {"kind": "find_intercepts", "style": kind, "M": M, "ext": [[float(x) for x in r] for r in ext],
+                "best": [float(x) for x in best], "worst": [float(x) for x in worst], "front_worst": [float(x) for x in fw]}
+        note(case, M > 1)
+        args = [numpy.array([[float(x) for x in r] for r in ext]), numpy.array([float(x) for x in best]),
+                numpy.array([float(x) for x in worst]), numpy.array([float(x) for x in fw])]
+        before = [v.copy() for v in args]
+        res = guarded(emo.find_intercepts, *args)
+        if res[0] != "ok":
+            run.oracle_violation("find_intercepts raised %s" % res[1], case)
+            return
+        if any(not numpy.array_equal(u, v) for u, v in zip(args, before)):
+            input_modified("find_intercepts changed one of its arguments", case)
+        r = numpy.array(res[1], dtype=float).reshape(-1)
+        case["observed"] = [float(x) for x in r]
+        intercept_oracle({"ext": before[0], "best": before[1], "worst": before[2], "front_worst": before[3], "result": r}, case)
+        if len(r) == M:
+            icpt_term(ext, best, worst, fw, [float(x) for x in r], case, "direct")
 
     class Client(object):
         """One holder of NSGA-III memory: the class selNSGA3WithMemory, or selNSGA3 called with the
@@ -724,6 +1003,20 @@ def main(run):
                     else:
                         vals = [[rng.choice([0.0, -0.0, 1.0, -1.0]) for _ in range(M)] for _ in range(n)]
             else:
+                if rng.random() < 0.3 and n >= M:
+                    # one individual far out on every axis of the (minimised) objective space plus interior points:
+                    # distinct extreme points, a regular system in find_intercepts (main branch / guards)
+                    hi = rng.choice([7, 13, 40])
+                    frows = []
+                    for i in range(M):
+                        row = [rng.randint(0, 2) for _ in range(M)]
+                        row[i] = hi + rng.randint(0, 5)
+                        frows.append(row)
+                    while len(frows) < n:
+                        frows.append([rng.randint(0, hi) for _ in range(M)])
+                    rng.shuffle(frows)
+                    vals = [[-(6 * x) // wc for x, wc in zip(row, w)] for row in frows]      # wvalues = -6 * frows, exactly
+                    style = "axes"
                 if rng.random() < 0.15:
                     # objectives of very different magnitude (still exact integers): the ASF weights matter
                     big = [rng.random() < 0.5 for _ in range(M)]
@@ -778,7 +1071,26 @@ def main(run):
                 run.notes.append("nsga3: unexpected number of recorded helper calls %r" % ((len(rec.fronts), len(rec.assoc), len(rec.nich)),))
                 run.broken.append({"kind": "harness_recording", "where": ["harness/c07.py"], "log": "helper calls not recorded once"})
                 return
-            check_nsga3_call(pop, k, res[1], rec.fronts[0], rec.assoc[0], rec.nich[0], case, len(refs), single=single)
+            fullctx = None
+            if len(rec.icpt) == 1:
+                intercept_oracle(rec.icpt[0], case)
+            if not floats and len(rec.extreme) == 1 and len(rec.icpt) == 1:
+                ex0, ic0 = rec.extreme[0], rec.icpt[0]
+                wv_rows = [[float(x) for x in p.fitness.wvalues] for p in pop]
+                arrays = [ic0["ext"], ic0["best"], ic0["worst"], ic0["front_worst"], ex0["result"]] + \
+                         ([ex0["prev"]] if ex0["prev"] is not None else [])
+                if all(x.is_integer() for r in wv_rows for x in r) and \
+                        all(bool(numpy.all(numpy.isfinite(m_)) and numpy.all(m_ == numpy.round(m_))) for m_ in arrays):
+                    irows = lambda m_: [[int(x) for x in r] for r in m_]
+                    info = icpt_term(irows(ic0["ext"]), [int(x) for x in ic0["best"]], [int(x) for x in ic0["worst"]],
+                                     [int(x) for x in ic0["front_worst"]], [float(x) for x in ic0["result"]], case, "in-selNSGA3")
+                    pb0, pw0 = (cl.prev if cl is not None else (None, None))
+                    fullctx = {"nd": nd, "wv": irows(wv_rows), "mem": None if pb0 is None or pw0 is None else (pb0, pw0),
+                               "pext": None if ex0["prev"] is None else irows(ex0["prev"]),
+                               "best": [int(x) for x in ic0["best"]], "worst": [int(x) for x in ic0["worst"]],
+                               "ext": irows(ex0["result"]), "icpt": [float(x) for x in ic0["result"]], "icpt_info": info}
+            check_nsga3_call(pop, k, res[1], rec.fronts[0], rec.assoc[0], rec.nich[0], case, len(refs), single=single,
+                             fullctx=None if single else fullctx)
             if floats and len(rec.icpt) == 1:
                 # float populations: only the oracle (coordinatewise extremes, exact float min/max)
                 ic = rec.icpt[0]
@@ -831,6 +1143,8 @@ def main(run):
                                           clist(["(%s, %s, %s)" % (czl([int(x) for x in b]), czl([int(x) for x in wst]), czll(ext))
                                                  for b, wst, ext in cl.obs])), case)
 
+    for _ in range(run.scale(450, 6000)):
+        icpt_case()
     for _ in range(run.scale(380, 4000)):
         nsga3_case()
     for _ in range(run.scale(40, 500)):
@@ -847,6 +1161,8 @@ def main(run):
     import time
     run.extra_cov["timing"] = {"generate_s": round(time.time() - run.t0, 1)}
     run.extra_cov["case_kinds"] = {g: len(groups[g][0]) for g in sorted(groups)}
+    run.extra_cov["find_intercepts_branches"] = dict(coverage["icpt"])      # exact branch, "/boundary" = decision not stable under rounding
+    run.extra_cov["full_pipeline_cases"] = dict(coverage["full"])
     # one sharded evaluation for everything; the expensive exact cases are spread evenly over the shards
     terms, cases = [], []
     for g in sorted(groups):
